@@ -9,6 +9,7 @@ exact, and an empty list keeps yielding nothing.
 -/
 import JulianVerif.Lemmas.Deque
 import JulianVerif.Lemmas.GenLibWF
+import JulianVerif.Lemmas.GenLibDates
 set_option linter.unusedSimpArgs false
 namespace JV.C17
 open JV
@@ -156,5 +157,30 @@ theorem generated_month_iter_step (r : RangeIncl) :
     rcases h : r.nextBack with ⟨_ | n, r'⟩
     · rfl
     · simp only []; cases Month.ofInt? n <;> rfl
+
+/-- **`Dates::new` as generated from iter.rs** — its two trimming `while` loops become functions
+recursive in a fuel argument — builds exactly the iterator `dates_refines` is about, for every shape
+`month_shape` returns in every calendar a caller can hold (and so does `MonthShape::dates`) -/
+theorem generated_dates_new (c : Calendar) (hc : WF c) (y : Int) (hy : InI32 y) (m : Month) (s : IShape)
+    (hs : c.monthIShape y m = some s) :
+    Gen.datesNew ⟨c, y, m, s⟩ = some (Dates.new ⟨c, y, m, s⟩)
+    ∧ Gen.monthShapeDates ⟨c, y, m, s⟩ = some (Dates.new ⟨c, y, m, s⟩)
+    ∧ Gen.daysNew ⟨c, y, m, s⟩ = some (Days.new ⟨c, y, m, s⟩) := by
+  obtain ⟨B⟩ := hc.base
+  have hg := Gen.WF.gapOrdered hc
+  have hf := B.fits y m s hs
+  have hlen : Gen.monthShapeLen ⟨c, y, m, s⟩ = some (MonthShape.len ⟨c, y, m, s⟩) := by
+    rw [Gen.monthShapeLen_eq]; exact Chk.len_eq s hf
+  have H : ∀ n : Int, 0 ≤ n → n ≤ 4294967295 →
+      Gen.monthShapeNthDate ⟨c, y, m, s⟩ n = some (MonthShape.nthDate ⟨c, y, m, s⟩ n) := by
+    intro n h0 h1
+    rw [Gen.monthShapeNthDate_eq _ hg]
+    exact B.nthDate_eq y hy m s hs n ⟨h0, h1⟩
+  have hl31 := B.len_le_31 y m s hs
+  have hl0 : 0 ≤ s.len := s.len_nonneg hf.1.valid
+  have h := Gen.datesNew_eq ⟨c, y, m, s⟩ H hlen hl0 (by simp only [MonthShape.len]; omega)
+  refine ⟨h, ?_, ?_⟩
+  · simp only [Gen.monthShapeDates, h, bind, Option.bind, pure]
+  · rw [Gen.daysNew_eq]; simp only [Chk.len_eq s hf, Option.map, Days.new, MonthShape.len]
 
 end JV.C17
